@@ -171,6 +171,13 @@ Section AL.
   Proof. unfold ahas; intros k l H. destruct (aget eqb k l); [eauto | discriminate]. Qed.
 End AL.
 
+Lemma aget_filter_key_false' : forall (V : Type) (g : N -> bool) k (l : list (N * V)),
+  g k = false -> aget N.eqb k (filter (fun kv => g (fst kv)) l) = None.
+Proof.
+  intros V g k l G. destruct (aget N.eqb k (filter (fun kv => g (fst kv)) l)) eqn:E; auto.
+  apply (aget_In N.eqb N.eqb_eq) in E. apply filter_In in E. destruct E as [_ E]; simpl in E. congruence.
+Qed.
+
 Lemma N_eqb_eq' : forall a b : N, N.eqb a b = true <-> a = b.
 Proof. exact N.eqb_eq. Qed.
 
